@@ -231,7 +231,9 @@ def replay_states(rep, dump, base, calls_list, engines, rng, label, nsub=1, keep
     for st in tlaval.parse_dump(dump):
         calls = calls_list[st['tid'] - 1]
         if keep_frac < 1.0 and st['out']['st'] == 'ok' and len(st['toks']) > 3 and rng.random() > keep_frac:
-            continue
+            # sequences using an operator the insert_operator calls added are always replayed
+            if not (set(c[2] for c in calls) & set(str(t) for t in st['toks'])):
+                continue
         out = st['out']
         status = str(out['st'])
         kind, eng = engines.get(base, calls)
